@@ -11,13 +11,13 @@ _T = "property-based testing (Hypothesis, generated specs vs. independent oracle
 CLAIMED = {
     "C01": {
         "technique": _T + "; constructive preconditions, covered-cell-set oracle under an independent minimal-image metric",
-        "level": "Generated grids of all four families (Cartesian 1-3D x all periodicity masks x anisotropy 0.4-2.5 x 3.5 decades of spacing) and 0-4 rendered droplets satisfying the stated separation/resolution preconditions by construction; count, volume, half-cell centre bound and in-box position checked against an independent covered-cell oracle; centres up to several periods outside the box; exhaustive corner sweep (7 sub-cell offsets per axis x 6 radii around the corner of periodic boxes with unequal cell counts); sibling-grid warm-up calls. Bounded search (<=24 cells per axis quick, <=48 thorough).",
+        "level": "Generated grids of all four families (Cartesian 1-3D x all periodicity masks x anisotropy 0.4-2.5 x 3.5 decades of spacing) and 0-4 rendered droplets satisfying the stated separation/resolution preconditions by construction; count, volume, half-cell centre bound and in-box position checked against an independent covered-cell oracle; centres up to several periods outside the box; exhaustive corner sweep (7 sub-cell offsets per axis x up to 8 radii around the corner of periodic boxes with unequal cell counts); sibling-grid warm-up calls. Bounded search (<=24 cells per axis quick, <=48 thorough).",
         "note": "Knife-edge cells (within 1e-9 R of the surface) skipped and counted; cylindrical droplets kept inside the z-range (py-pde does not wrap z when rendering).",
     },
     "C02": {
         "technique": "exhaustive enumeration of all binary images on small grids (itertools) + Hypothesis-generated structured masks, against an independent BFS connected-component oracle with periodic unwrapping and bipartite matching",
         "level": "Every binary image on Cartesian grids of 6, 10, 3x3, 3x4, 2x2x3 cells (thorough: up to 14, 4x4, 2x3x3) for every periodicity mask and on cylindrical grids up to 2x5 (thorough 4x4) for both periodic_z, plus generated masks (noise, wrapped boxes, persistent walks) on grids up to 40/16^2/8^3; volume, unwrapped centre of mass, sphere non-overlap and justification of omissions.",
-        "note": "Positions of winding components are not judged; lopsided on-axis objects on periodic cylinders are swept over every z-translation; no known finding is open, nothing is excluded.",
+        "note": "Positions of winding components are not judged; lopsided on-axis objects and winding objects accompanied by on-axis blobs are swept over every z-position of periodic cylinders; no known finding is open, nothing is excluded.",
     },
     "C03": {
         "technique": _T + "; independent minimal-image geometry oracle, inside/outside equivalence, metamorphic roll equivariance, emulsion = clipped sum under permutation",
@@ -42,7 +42,7 @@ CLAIMED = {
     "C07": {
         "technique": "exhaustive lattice histories + Hypothesis-generated identity-preserving motion histories; differential against a re-implemented overlap relation and greedy closest-pair matching",
         "level": "Links extracted from returned tracks compared with the oracle relation (overlap: link implies overlap, no-overlap implies new track, one-to-one relation followed exactly; distance: cut-off respected, no end/start pair within the cut-off, greedy matching when distances are distinct; motion histories keep identities across periodic boundaries).",
-        "note": "Cases violating the no-within-frame-overlap premise or with unidentifiable entries are skipped and counted (C06 judges those); the consecutive-overlap clause is judged for every pair of entries of a track.",
+        "note": "Cases violating the no-within-frame-overlap premise or with unidentifiable entries are skipped and counted (C06 judges those); the consecutive-overlap clause is judged for every pair of entries of a track; links that skip a frame and the links of histories with untracked droplets are judged too.",
     },
     "C08": {
         "technique": _T + "; write/read round trip through real HDF5 files, byte-level comparison",
@@ -61,12 +61,12 @@ CLAIMED = {
     },
     "C11": {
         "technique": _T + "; three-path differential (python / in-place / numba-compiled), commutativity, merge-tree associativity",
-        "level": "Generated pairs and lists (2-8) of Spherical/Diffuse droplets in 1-3 D over 6 decades of radius, incl. zero radius and the sharp width 0; all three code paths compared with the textbook formulas and each other; two random merge trees per case.",
+        "level": "Generated pairs and lists (2-8) of Spherical/Diffuse droplets in 1-3 D over 6 decades of radius, incl. zero radius and the sharp width 0; a data array linked to the operands before an in-place merge must still mirror them afterwards; all three code paths compared with the textbook formulas and each other; two random merge trees per case.",
         "note": "Numerical tolerances 1e-12/1e-13/1e-10; the symbolic claim is not reachable by search.",
     },
     "C12": {
         "technique": _T + "; round trips, variant-agreement differential, r*S=d*V identity, finite-difference derivative",
-        "level": "Generated radii/volumes over 30 decades x dims 1-3 x scalar/array layouts (float64, float32, small integers); every conversion variant compared with textbook formulas and with each other; bounded search, no proof of the symbolic claim.",
+        "level": "Generated radii/volumes over 30 decades x dims 1-3 x scalar/array layouts (float64, float32, small integers); droplets are also edited after a pickle round trip / copy and after a rejected negative radius; every conversion variant compared with textbook formulas and with each other; bounded search, no proof of the symbolic claim.",
         "note": "Trusts numpy/numba arithmetic; tolerances rtol 1e-13 (1e-7 for the numerical derivative).",
     },
     "C13": {
@@ -76,12 +76,12 @@ CLAIMED = {
     },
     "C14": {
         "technique": _T + "; differential between the online trackers and the offline analysis of the identical stored frames (direct drive and real py-pde solver runs)",
-        "level": "Generated histories of 0-8 (12) fields on every grid family with irregular times and drawn analysis settings, sources (None / index / callable), pre-filled time courses and files; solver runs of three PDEs; frame-by-frame byte comparison with EmulsionTimeCourse.from_storage and with the written file; LengthScaleTracker compared bit-wise with get_length_scale (NaN when it raises) and with its JSON file.",
+        "level": "Generated histories of 0-8 (12) fields on every grid family with irregular times (increasing, repeated, restarting, spacing shrinking by 1e7, through 0) and drawn analysis settings, sources (None / index / callable), pre-filled time courses and files; solver runs of three PDEs; frame-by-frame byte comparison with EmulsionTimeCourse.from_storage and with the written file; LengthScaleTracker compared bit-wise with get_length_scale (NaN when it raises) and with its JSON file.",
         "note": "py-pde storage/solvers trusted; solver runs on 8x8-16x16 grids with the numpy backend.",
     },
     "C15": {
         "technique": "schedule exploration by harness-controlled delay injection (Hypothesis-drawn completion orders, exhaustive over 4 tasks in the thorough tier), differential against the serial run",
-        "level": "Generated fields / storages x process counts {2,3,5,auto} x forced worker completion orders; locate_droplets(refine=True), refine_droplets (incl. user-supplied solver parameters, fresh copy per call), EmulsionTimeCourse.from_storage and DropletTrackList.from_storage must return the byte-identical, identically ordered result of the serial run; serial runs must be repeatable.",
+        "level": "Generated fields / storages x process counts {2,3,5,auto} x forced worker completion orders; locate_droplets(refine=True), refine_droplets (incl. user-supplied solver parameters, fresh copy per call), EmulsionTimeCourse.from_storage and DropletTrackList.from_storage must return (or, for a candidate that cannot be fitted, fail in) the byte-identical, identically ordered result of the serial run; serial runs must be repeatable.",
         "note": "Explores completion orders of whole tasks on forked process pools, not pre-emption inside a task; delays are never used as a verdict.",
     },
     "C16": {
@@ -96,17 +96,17 @@ CLAIMED = {
     },
     "C18": {
         "technique": _T + "; differential against the documented binary image, Otsu by definition, exact affine metamorphic relation",
-        "level": "Generated fields with exactly representable values on all grid families x five threshold rules x exact affine maps x minimal radii incl. exactly a found radius; byte-for-byte comparison with locate_droplets_in_mask(data > t_oracle), affine invariance, exact radius-filter sub-list, also with refinement (bound between a fitted and a cluster radius); Otsu additionally on dense bimodal samples.",
+        "level": "Generated fields with exactly representable values on all grid families x five threshold rules x exact affine maps x minimal radii incl. exactly a found radius; byte-for-byte comparison with locate_droplets_in_mask(data > t_oracle), affine invariance, exact radius-filter sub-list, also with refinement; 1-D images of 4095...200003 cells next to powers of two (bound between a fitted and a cluster radius); Otsu additionally on dense bimodal samples.",
         "note": "numpy.histogram trusted for binning; Otsu near-ties between different masks and mean-rule knife edges skipped and counted.",
     },
     "C19": {
         "technique": "exhaustive enumeration of the finite configuration cube (itertools) with a class/shape/layout oracle",
-        "level": "All 8640 combinations of grid family/periodicity x modes x width x refine x threshold rule x image (one / two droplets, empty, single bright cell, droplet + single bright cell) are executed in both tiers (exhaustive: true); exact class, amplitude count, dimension, carried width, single dtype and formable tabular data.",
+        "level": "All 10752 combinations of grid family/periodicity (plus two grids with strongly anisotropic cells) x modes x width x refine x threshold rule x image (one / two / three droplets, empty, speck, droplet + speck) are executed in both tiers (exhaustive: true); exact class, amplitude count, dimension, carried width, single dtype and formable tabular data.",
         "note": "One fixed geometry per grid family; refinement quality is not judged here.",
     },
     "C20": {
         "technique": "model-based testing: Hypothesis-generated operation sequences (as data) interpreted against a list model, plus exhaustive sequences over a 7-operation alphabet",
-        "level": "Three machines (Emulsion, EmulsionTimeCourse, DropletTrack/List), 1-50 (thorough 200) operations per sequence incl. ownership probes; model equality and independence of copies/slices after every step; arrays returned by queries are overwritten by the caller; nearly monodisperse histories; summary queries vs definitions and under member reversal; all sequences of length <= 4 (5) over a small alphabet.",
+        "level": "Three machines (Emulsion, EmulsionTimeCourse, DropletTrack/List), 1-50 (thorough 200) operations per sequence incl. ownership probes; model equality and independence of copies/slices after every step; arrays returned by queries are overwritten by the caller; nearly monodisperse histories; rejected batches (list / Emulsion / generator with a wrong droplet in the middle); summary queries vs definitions and under member reversal; all sequences of length <= 4 (5) over a small alphabet.",
         "note": "append(copy=False) aliasing unspecified and not judged; remove_overlapping only checked to leave a sub-sequence (C10 has the details).",
     },
 }
